@@ -56,3 +56,36 @@ Proof.
       * field. repeat split; auto. unfold qn. intros H0. unfold Qeq in H0. simpl in H0. lia.
 Qed.
 End Union.
+
+(* ---- acceptance fraction and filtering ---- *)
+Section Accept.
+Variable A : Type.
+Variable X : list A.
+Variable members : list (A -> bool).
+Variable cube : A -> bool.
+Hypothesis Xnodup : NoDup X.
+
+Definition region (x : A) : bool := cube x && negb (Nat.eqb (mult A members x) 0).
+(* probability that one proposal round of Union.sample outputs anything at all *)
+Definition p_accept : Q := qsum (map (p_out A X members cube) (filter region X)).
+
+(* ... is |region| / sum_k |E_k|: so  sum_k vol(E_k) * (1 - n_reject / n_sample)  estimates the measure of the region *)
+Theorem C08_accept : ~ Stot A X members == 0 -> p_accept == qn (length (filter region X)) / Stot A X members.
+Proof.
+  intros HS. unfold p_accept.
+  rewrite (qsum_ext _ (fun _ => 1 / Stot A X members)).
+  - assert (G : forall (l : list A) c, qsum (map (fun _ => c) l) == qn (length l) * c).
+    { induction l as [|a l IH]; intros c; simpl; [unfold qn; simpl; ring|]. rewrite IH. unfold qn. rewrite Nat2Z.inj_succ, <- Z.add_1_l, inject_Z_plus. ring. }
+    rewrite G. field. exact HS.
+  - intros x Hx. apply filter_In in Hx. destruct Hx as [Hx Hr]. unfold region in Hr. apply andb_true_iff in Hr. destruct Hr as [Hc Hm].
+    apply negb_true_iff, Nat.eqb_neq in Hm. apply C08_uniform; auto. lia.
+Qed.
+
+(* NautilusBound.sample keeps an outer-bound sample when a neural bound accepts it: a uniform law filtered by a predicate
+   is uniform on the intersection; every kept cell has the same probability as before *)
+Variable keep : A -> bool.
+Definition p_kept (x : A) : Q := p_out A X members cube x * b2q (keep x).
+Theorem C08_filter x : In x X -> cube x = true -> (0 < mult A members x)%nat -> ~ Stot A X members == 0 -> keep x = true ->
+  p_kept x == 1 / Stot A X members.
+Proof. intros Hx Hc Hm HS Hk. unfold p_kept. rewrite Hk. simpl. rewrite C08_uniform by auto. ring. Qed.
+End Accept.
